@@ -564,4 +564,18 @@ theorem C24_alias_sync_init (caps : Caps) : AliasSync (init caps) [] := by
     | succ n => rfl
   omega
 
+/-- QoS 0 (the message or the subscription has QoS 0): the copy is written in the call that shapes it — nothing can be
+    dropped, so the drop hypothesis of `C24_alias_sync_core_partial` is not needed (the `Calm` hypothesis is still
+    carried by the relation `A24.AH`, although no QoS 0 copy is ever deferred) -/
+theorem C24_qos0_core_resolvable_partial (s : Server) (i : Nat) (sub : Sub) (f : Bool) (pk : Msg) (pre : List Out)
+    (hq : pk.qos = 0 ∨ sub.qos = 0) (hty : pk.type = 3) (hne : pk.topic ≠ [])
+    (hcalm : ∀ k, Calm (getObj s k)) (hs : AliasSync s pre) :
+    AliasSync (publishToClientCore s i sub f pk).1 (pre ++ (publishToClientCore s i sub f pk).2) ∧
+    ResOuts pre (publishToClientCore s i sub f pk).2 := by
+  have hnd : (publishToClientCore s i sub f pk).1.info.inflightDropped = s.info.inflightDropped := by
+    obtain ⟨c1, m, _, _, he⟩ := publishToClientCore_q0 s i sub f pk hq
+    rw [he]; rfl
+  exact C24_alias_sync_core_partial s i sub f pk pre hty hne hcalm hnd hs
+
 end Mochi.Broker
+
